@@ -14,7 +14,7 @@ use vharness::{cmp, util, Mode, Run};
 // ---------------------------------------------------------------------------------------------
 // title menu
 
-const MENU: [(&str, &str); 10] = [
+const MENU: [(&str, &str); 13] = [
     ("ascii", "Chapter 1"),
     ("ascii_parens_backslash", "Sec (1) \\ )x(("),
     ("empty", ""),
@@ -26,6 +26,10 @@ const MENU: [(&str, &str); 10] = [
     // two supplementary entries (not in the menu of DESIGN §4, same oracle)
     ("ascii_controls", "a\tb\r\nc\rd\ne\u{7f}"),
     ("utf16_bytes_parens_backslash", "\u{2829}\u{5C28}\u{295C}"),
+    // an opening parenthesis that is never closed, FOLLOWED by a byte that needs an escape (ASCII and as UTF-16 bytes)
+    ("unclosed_paren_then_backslash", "Paths (C:\\tmp and others"),
+    ("utf16_bytes_28_then_5C", "\u{5728}\u{5C0F}\u{57CE}"),
+    ("unclosed_paren_then_cr_lf", "a(b\rc\nd"),
 ];
 
 // ---------------------------------------------------------------------------------------------
@@ -372,7 +376,7 @@ fn deep_case(family: &str, d: usize, zero: &str, order: &str, gap: u32) -> Optio
         })
         .collect();
     let desc = json!({"family": family, "depth": d, "zero": zero, "order": order, "max_id_gap": gap, "n_pages": 3,
-        "meaning": "generated by deep_case() in c17.rs: titles = menu[i mod 10] + '#i', page = (i mod 3) + 1, i = insertion index"});
+        "meaning": "generated by deep_case() in c17.rs: titles = menu[i mod 13] + '#i', page = (i mod 3) + 1, i = insertion index"});
     Some(Case { n_pages: 3, gap, ins, desc: Some(desc) })
 }
 
